@@ -207,7 +207,8 @@ class NMEA2000Decoder():
         
         # Extract the CAN data from the remaining parts
         # Convert to bytes
-        bytes_data = bytes.fromhex(parts[3])
+        # a message whose payload is empty (e.g. an all-zero variable length PGN) has no data part
+        bytes_data = bytes.fromhex(parts[3]) if len(parts) > 3 else b""
 
         # Reverse the byte order
         reversed_bytes = bytes_data[::-1]
